@@ -14,7 +14,8 @@ THOROUGH = dict(runs=80000, wall=1800)
 RULE = ('op sequences (4-25 ops) on list / dict / Namespace / Value / custom-class proxies, each op issued by a generated party: the driver '
         'process, a client process, or a second thread inside the client process (own connection), all holding proxies of the same hosted '
         'objects (the client process may drop all of them and be handed them again); generated picklable arguments; ops that raise (pop from empty, KeyError, ValueError, TypeError in a custom method, a '
-        'custom exception class with its own __init__); methods returning managed() values (flat and nested); op-by-op comparison with a '
+        'custom exception class with its own __init__); the same list calls made by a hosted method that was handed the proxy (in-server '
+        'call path); augmented assignments (*=, +=); methods returning managed() values (flat and nested); op-by-op comparison with a '
         'local reference object; a concurrent phase of commuting ops (appends of unique values / disjoint keys from two processes at '
         'once) compared as a multiset')
 NONTRIVIAL_RULE = '>=4 ops, of which at least one issued by the client process or its second thread'
@@ -37,8 +38,10 @@ def gen(rng, tier):
         i = rng.choice([0, 1, 2, -1, 5])
         if target == 'list':
             m = rng.choice(['append', 'append', 'extend', 'pop', 'pop_i', 'insert', 'getitem', 'setitem', 'len', 'count', 'index', 'remove',
-                            'reverse', 'contains', 'delitem', 'sort'])
+                            'reverse', 'contains', 'delitem', 'sort', 'imul', 'iadd'])
             ops.append([party, 'list', m, v, v2, i])
+            if m not in ('sort', 'imul', 'iadd') and rng.random() < 0.15:
+                ops[-1].append('via_hosted_method')  # the same call, made by a hosted method that was handed the proxy
         elif target == 'dict':
             m = rng.choice(['setitem', 'setitem', 'getitem', 'get', 'pop', 'setdefault', 'update', 'len', 'contains', 'popitem', 'clear', 'copy', 'delitem'])
             ops.append([party, 'dict', m, rng.choice(['k1', 'k2', 'k3', 7]), v, i])
@@ -65,6 +68,8 @@ def shrink(sc):
     for i, op in enumerate(ops):
         if op[0] != 'main':
             yield dict(sc, ops=ops[:i] + [['main'] + op[1:]] + ops[i + 1:])
+        if len(op) > 6:
+            yield dict(sc, ops=ops[:i] + [op[:6]] + ops[i + 1:])
 
 
 def tags(sim, sc, obs):
@@ -211,9 +216,32 @@ def run(sim, sc):
         from multiprocessing.managers import Namespace
         ref = {'list': [], 'dict': {}, 'ns': Namespace(), 'value': 0, 'maker': managers.Maker()}
         for n, op in enumerate(sc['ops']):
-            party, kind, meth, a, v, i = op
+            party, kind, meth, a, v, i = op[:6]
+            via_hosted = len(op) > 6
             if kind == 'list' and meth == 'sort':
                 continue  # key functions do not pickle by value; covered by reverse
+            if kind == 'list' and meth in ('imul', 'iadd'):
+                # augmented assignment, exactly as the statement `p *= k` / `p += [..]` executes it: the name is rebound to what the
+                # in-place method returns - for a list that is the list itself, so for a proxy it must be a proxy of the same object
+                import operator
+                arg = (abs(i) % 3) if meth == 'imul' else [v, a]
+                opf = operator.imul if meth == 'imul' else operator.iadd
+                ref['list'] = opf(ref['list'], arg)
+                if party == 'main':
+                    try:
+                        q = opf(px['list'], arg)
+                        tname = type(q).__name__
+                        px['list'] = q
+                    except Exception as e:
+                        tname = 'raised ' + repr(e)[:200]
+                else:
+                    r = ag.cmd('inplace', 'list', meth, arg)
+                    tname = r[1] if isinstance(r, tuple) and r[0] == 'RET' else 'raised ' + repr(r)[:200]
+                if tname != 'ListProxy':
+                    sim.violation('inplace:augmented-assignment-rebinds-the-name-to-%s' % ('a-copy' if tname == 'list' else 'something-else'),
+                                  {'n': n, 'op': op, 'got_type': tname})
+                    break
+                continue
             if kind == 'ctl':
                 for k in px:
                     ag.cmd('drop', k)
@@ -237,10 +265,14 @@ def run(sim, sc):
                 want = ('EXC', type(e).__name__, e.args)
             spec = proxy_call_spec(kind, meth, a, v, i)
             name, args = spec
+            if via_hosted and party == 'agent_thread':
+                party = 'agent'
             if party == 'main':
                 try:
                     p = px[kind]
-                    if kind == 'ns':
+                    if via_hosted:
+                        r = px['maker'].use_proxy(p, name, args)
+                    elif kind == 'ns':
                         if meth == 'set':
                             setattr(p, a, v)
                             r = None
@@ -262,7 +294,9 @@ def run(sim, sc):
                     c = e.__cause__
                     got = ('EXC', type(e).__name__, e.args, str(c) if c is not None else '')
             else:
-                if kind == 'ns':
+                if via_hosted:
+                    got = ag.cmd('call_with', 'maker', 'use_proxy', kind, (name, args))
+                elif kind == 'ns':
                     # attribute protocol inside the agent: builtins applied to the held proxy
                     got = ag.cmd('thread_call' if party == 'agent_thread' else 'call', kind, name, args)
                 else:
